@@ -43,9 +43,13 @@ pub fn structures(tier: &str, seed: u64) -> Vec<Structure> {
         let ext = scen::extended_structures(c);
         if tier == "thorough" {
             out.extend(ext);
+            if i == 0 {
+                out.extend(scen::generated_structures(c));
+            }
         } else if i == 0 {
             // quick: the whole extended family for the base configuration, a seed-dependent pair for the others
             out.extend(ext);
+            out.extend(rot(&scen::generated_structures(c), seed * 7, 8));
         } else {
             out.extend(rot(&ext, seed + i as u64, 2));
         }
